@@ -190,6 +190,10 @@ def _set_dataclass_init(class_: Class) -> None:
     if _dataclass_arguments(class_.decorators).get("init") == "False":
         return
 
+    # A hand-written `__init__` method is never replaced.
+    if "__init__" in class_.members:
+        return
+
     # Create `__init__` method with re-ordered parameters.
     init = Function(
         "__init__",
@@ -218,8 +222,9 @@ def _apply_recursively(mod_cls: Module | Class, processed: set[str]) -> None:
         return
     processed.add(mod_cls.canonical_path)
     if isinstance(mod_cls, Class):
-        if "__init__" not in mod_cls.members:
-            _set_dataclass_init(mod_cls)
+        has_init = "__init__" in mod_cls.members
+        _set_dataclass_init(mod_cls)
+        if not has_init:
             _del_members_annotated_as_initvar(mod_cls)
         for member in mod_cls.members.values():
             if not member.is_alias and member.is_class:
